@@ -562,9 +562,15 @@ class ArrayBase(ParsableBase, MutableSequence, Serializable):
         return str(self._items)
 
     def insert(self, index, value):
+        items_size = self._items_size
         self._update_items_size(insert_item=value)
 
-        self._items.insert(index, value)
+        try:
+            self._items.insert(index, value)
+        except BaseException:
+            # the list refused the position (not an integer, too large): nothing was inserted
+            self._items_size = items_size
+            raise
 
     def append(self, value):
         self.insert(len(self._items), value)
